@@ -1,5 +1,6 @@
 """C17 — the toolchain cache only ever serves content matching the requested id."""
 import itertools
+import os
 import subprocess
 
 from .. import pipeline, sx
@@ -11,7 +12,8 @@ RUN_MODULE = 'Run.C17'
 THEOREMS = ['C17_content_matches', 'C17_serves_the_intended_archive', 'C17_bad_upload_leaves_nothing',
             'C17_crashed_upload_leaves_nothing', 'C17_key_path_total', 'C17_invalid_id_no_effect',
             'C17_client_content_matches', 'C17_failed_rename_leaves_nothing', 'C17_failed_copy_leaves_nothing',
-            'C17_crash_in_fallback_copy_leaves_nothing']
+            'C17_crash_in_fallback_copy_leaves_nothing', 'C17_only_digests_are_served', 'C17_remove_is_exact',
+            'C17_server_ready_means_present']
 ASSUMPTIONS = [
     'the digest (BLAKE3 via util::Digest) is an abstract function; C17_serves_the_intended_archive additionally assumes '
     'it is injective on the contents in play ("no BLAKE3 collision", hypothesis no_collision); the other theorems hold for ANY digest function',
@@ -138,11 +140,35 @@ def gen_random(rng, n, maxlen):
         ops = []
         for _ in range(rng.range(1, maxlen)):
             kind = rng.weighted([('good', 7), ('mismatch', 4), ('cut', 3), ('crash', 3), ('insert_file', 3), ('get', 6),
-                                 ('contains', 1), ('remove', 2), ('reopen', 2), ('invalid', 1)])
+                                 ('contains', 1), ('remove', 2), ('reopen', 2), ('invalid', 1), ('near', 3), ('rewind', 2)])
             c = rng.choice(pool)
             i = _hash_cache[c]
             if kind == 'good':
                 ops.append([b'insert_with', i, c, 0])
+            elif kind == 'near':
+                # ids of EVERY length: a stored id with digits appended / dropped / doubled / longer than NAME_MAX
+                near = rng.choice([i + b'0', i + b'00', i + b'f', i[:-1], i[:32], i + i, i + b'a' * 200, i[:2]])
+                k2 = rng.weighted([('contains', 3), ('get', 4), ('remove', 3), ('insert_with', 2), ('crash_upload', 1)])
+                if k2 == 'insert_with':
+                    ops.append([b'insert_with', near, c, 0])
+                elif k2 == 'crash_upload':
+                    ops.append([b'crash_upload', near, c, cap])
+                else:
+                    ops.append([k2.encode(), near])
+            elif kind == 'rewind':
+                # a writer that does not leave its cursor at the end (seeks back / positional writes); the declared
+                # id is the digest of what lies before the cursor, of the whole content, or of the empty archive
+                if len(c) > 0:
+                    k = rng.below(len(c))
+                    which = rng.weighted([('prefix', 4), ('whole', 2), ('empty', 2)])
+                    if which == 'prefix':
+                        ops.append([b'insert_with', real_ids([c[:k]])[0], c, 0, len(c) - k])
+                    elif which == 'whole':
+                        ops.append([b'insert_with', i, c, 0, len(c) - k])
+                    else:
+                        ops.append([b'insert_with', real_ids([b''])[0], c, 0, len(c)])
+                else:
+                    ops.append([b'insert_with', i, c, 0])
             elif kind == 'mismatch':
                 other = rng.choice(pool + [b'evil'])
                 wrong = rng.choice(UNKNOWN_IDS) if (other == c or rng.chance(1, 4)) else i
@@ -233,6 +259,18 @@ def monitor(case, out):
         if op is not None and op[0] == b'get' and res == b'ok':
             if len(ret) != 2 or ret[1] != op[1]:
                 vs.append('op %d get %r: returned content with digest %r' % (n, op[1], ret[1] if len(ret) == 2 else None))
+        if op is not None and op[0] == b'remove' and prev is not None:
+            # removing an id touches that id only
+            ppres = {p[0]: p[1] for p in prev[3]}
+            for j, p in present:
+                if j != op[1] and ppres.get(j) == 1 and p != 1:
+                    vs.append('op %d remove %r: id %r is no longer present' % (n, op[1], j))
+            pfd = {f[0]: f[3] for f in prev[7]}
+            nfd = {f[0]: f[3] for f in files}
+            tgt = kp(op[1]) if len(op[1]) >= 2 else None
+            for path in set(pfd) | set(nfd):
+                if path != tgt and pfd.get(path) != nfd.get(path):
+                    vs.append('op %d remove %r: the archive at %r was removed / changed' % (n, op[1], path))
         if op is not None and op[0] == b'insert_file' and res == b'ok':
             if ret != [dig.get(expand(op[1]))]:
                 vs.append('op %d insert_file: returned id %r for content with digest %r' % (n, ret, dig.get(expand(op[1]))))
@@ -294,6 +332,10 @@ def stats(case, out):
                 t += ':mismatch'
             else:
                 t += ':match'
+            if op[0] == b'insert_with' and len(op) > 4:
+                t += ':rewind'
+        if op[0] in (b'get', b'contains', b'remove', b'insert_with', b'crash_upload') and valid(op[1]) and len(op[1]) != 64:
+            t += ':idlen<64' if len(op[1]) < 64 else (':idlen>255' if len(op[1]) > 255 else ':idlen>64')
         ks.append('op=' + t)
     try:
         for obs in out:
@@ -474,11 +516,181 @@ def stats_mount(case, out):
 
 
 def extra(rep, known):
+    if server_ok():
+        rep.notes.append('server leg: sccache-dist hook leg `tc` present; the real Server was driven')
+    else:
+        rep.notes.append('server leg SKIPPED: the tree under test has no `sccache-dist __verif_paths tc` leg (hook patch '
+                         '/tmp/strengthen/C17-hook.diff not merged) or sccache-dist did not build; the server-level statement '
+                         'C17_server_ready_means_present is then covered by the theorem and the model only')
     if mount_ok():
         rep.notes.append('mount leg: private mount namespace + tmpfs available; failing-rename cases were run on the real code')
     else:
         rep.notes.append('mount leg SKIPPED: unshare(CLONE_NEWNS)/mount(tmpfs) not permitted here; the failing final rename '
                          'is then covered by the theorems and the model only, not replayed on the real code')
+
+
+# ---------------------------------------------------------------- the build server in front of the cache
+
+_server_state = {}
+
+
+def server_hook_in_source():
+    """does the sccache-dist hook of the tree under test have the `tc` leg? (feature detection: the leg is skipped,
+    with a note in the evidence, on a tree without it)"""
+    try:
+        src = open(os.path.join(pipeline.REPO, 'src/bin/sccache-dist/verif_paths.rs'), encoding='utf-8', errors='replace').read()
+        return '"tc_probe"' in src
+    except OSError:
+        return False
+
+
+def prebuild(rep):
+    if not server_hook_in_source():
+        _server_state['ok'] = False
+        # a sccache-dist binary left in the build directory by another tree must not be used
+        os.environ['VERIF_C17_DIST_DISABLED'] = '1'
+        return
+    os.environ.pop('VERIF_C17_DIST_DISABLED', None)
+    ok, out = pipeline.build_repo_bins(['sccache-dist'], features='dist-server')
+    rep.oblige('build:sccache-dist', ok, out[-2000:] if not ok else 'cargo build --offline --features dist-server, --cfg sccache_verif')
+    _server_state['ok'] = ok
+
+
+def server_ok():
+    return bool(_server_state.get('ok'))
+
+
+def server_env():
+    return {'VERIF_C17_DIST': pipeline.repo_bin('sccache-dist')}
+
+
+SCONTENTS = [bytes([65 + j]) * n for n in (1, 5, 10, 12, 13, 20, 26) for j in (0, 1)] + [b'not a tar.gz']
+
+
+def mk_server(cap, ops):
+    contents = list(dict.fromkeys(op[2] for op in ops if op[0] in (b'submit', b'stall')))
+    ids = real_ids(contents)
+    alpha = set(ids) | set(op[1] for op in ops if op[0] == b'assign')
+    return [cap, [[c, i] for c, i in zip(contents, ids)], sorted(alpha), ops]
+
+
+def gen_server(rng, n, maxlen):
+    if not server_ok():
+        return []
+    real_ids(SCONTENTS)
+    out = []
+    for _ in range(n):
+        cap = rng.weighted([(25, 4), (40, 4), (100, 3), (10, 1)])
+        pool = [rng.choice(SCONTENTS) for _ in range(rng.range(2, 3))]
+        pid = [_hash_cache[c] for c in pool]
+        ops = []
+        njob = 0
+        last = {}          # id -> the latest job assigned for it
+        if rng.chance(1, 2):
+            # the history the answers must survive: an archive is uploaded, found un-unpackable by a job and thrown
+            # out of the cache; then the question is asked again while another upload holds the cache
+            k, j = pid[0], pid[-1]
+            ops += [[b'assign', k], [b'submit', 1, pool[0]], [b'assign', k], [b'run', 2], [b'assign', j],
+                    [b'stall', 3, pool[-1], rng.below(len(pool[-1]) + 1)], [b'assign', k]]
+            njob = 4
+            last = {k: 4, j: 3}
+        for _ in range(rng.range(1, maxlen)):
+            kind = rng.weighted([('assign', 6), ('submit', 5), ('run', 4), ('stall', 3), ('release', 3)])
+            x = rng.below(len(pool))
+            c, i = pool[x], pid[x]
+            if kind == 'assign':
+                tgt = i if rng.chance(5, 6) else rng.choice([i + b'0', i[:-1], b'ab', b'', b'../x'])
+                ops.append([b'assign', tgt])
+                njob += 1
+                if valid(tgt):
+                    last[tgt] = njob
+            elif kind in ('submit', 'stall'):
+                job = last.get(i, njob) if rng.chance(5, 6) else rng.range(0, njob + 1)
+                body = c if rng.chance(4, 5) else rng.choice(pool)
+                if kind == 'submit':
+                    ops.append([b'submit', job, body])
+                else:
+                    ops.append([b'stall', job, body, rng.below(len(body) + 1)])
+            elif kind == 'run':
+                ops.append([b'run', last.get(i, njob) if rng.chance(5, 6) else rng.range(0, njob + 1)])
+            else:
+                ops.append([b'release'])
+        ops.append([b'release'])
+        for i in sorted(set(pid)):
+            ops.append([b'assign', i])
+        out.append(mk_server(cap, ops))
+    return out
+
+
+def monitor_server(case, out):
+    """The server's answers, on the REAL Server: whenever it says it does not need a toolchain (need_toolchain=false,
+    at once or after having waited for an upload), an archive with that id and that digest is in its cache directory
+    at that moment; every archive in the cache sits under its digest; nothing panics or hangs."""
+    cap, table, ids, ops = case
+    if out in ([b'skipped'], [b'bad_table']) or (out and out[0] == b'env_unsupported'):
+        return []
+    if not isinstance(out, list) or len(out) != len(ops):
+        return ['malformed implementation output']
+    vs = []
+    waiting = []
+    stalled = False
+    for n, (op, obs) in enumerate(zip(ops, out)):
+        res, answers, present, files, ntmp = obs
+        fmap = {f[0]: f[1] for f in files}
+        if res in (b'panic', b'hung') or b'hung' in answers or b'panic' in answers:
+            vs.append('op %d %s: the server %s' % (n, op, res.decode()))
+        for path, d in files:
+            if path != kp(d):
+                vs.append('op %d %s: file %r holds content whose digest is %r' % (n, op, path, d))
+        if res == b'stalled':
+            stalled = True
+
+        def has(i):
+            return len(i) >= 2 and fmap.get(kp(i)) == i
+        if op[0] == b'assign':
+            if res == b'blocked':
+                waiting.append(op[1])
+            elif res == b'ready' and not has(op[1]):
+                vs.append('op %d: the server answered need_toolchain=false for id %r%s, but its toolchain cache holds '
+                          'no archive with that digest under the id' % (n, op[1], ' while an upload held the cache' if stalled else ''))
+        if op[0] == b'release' and res != b'idle':
+            stalled = False
+            for i, a in zip(waiting, answers):
+                if a == b'ready' and not has(i):
+                    vs.append('op %d: the assignment for id %r that waited for the upload was answered need_toolchain=false, '
+                              'but the cache holds no archive with that digest under the id' % (n, i))
+            waiting = []
+        for i, p in present:
+            if p == 1 and not has(i):
+                vs.append('op %d %s: id %r reported present but no archive with that digest is under it' % (n, op, i))
+        if ntmp != (1 if stalled else 0):
+            vs.append('op %d %s: %d temporary upload file(s) in the cache' % (n, op, ntmp))
+    return vs
+
+
+def shrink_server(case):
+    cap, table, ids, ops = case
+    for i in range(len(ops)):
+        yield mk_server(cap, ops[:i] + ops[i + 1:])
+
+
+def stats_server(case, out):
+    ks = ['cap=%d' % case[0]]
+    try:
+        for op, obs in zip(case[3], out):
+            ks.append('op=' + op[0].decode() + '->' + obs[0].decode())
+            for a in obs[1]:
+                ks.append('waited=' + a.decode())
+    except Exception:
+        pass
+    return ks
+
+
+def nontrivial_server(case, out):
+    try:
+        return any(o[0] in (b'blocked', b'failed', b'cannot_cache') or o[1] for o in out)
+    except Exception:
+        return True
 
 
 # ---------------------------------------------------------------- the client side (ClientToolchains)
@@ -600,6 +812,14 @@ def legs(tier):
                      'with RLIMIT_FSIZE) followed by a restart; PRNG sequences of length<=14 + '
                      'restart + get of every id, 14 contents of 10..9000 bytes, 4 capacities; non-trivial = a matching '
                      'upload / insert_file went into a mounted shard; skipped (noted in the evidence) without CAP_SYS_ADMIN'),
+            Leg('server', lambda rng, tier: gen_server(rng, 2500 if tier == 'thorough' else 250, 10),
+                monitor=monitor_server, shrink=shrink_server, stats=stats_server, nontrivial=nontrivial_server,
+                impl_env=server_env(), compare=lambda m, i: i.strip() == '(skipped)' or m == i,
+                rule='the real `Server` of the sccache-dist binary (hook leg tc: real TcCache, real OverlayBuilder) asked whether '
+                     'it needs a toolchain while archives are uploaded (also by an upload stalled mid-body that holds the cache), '
+                     'rejected, evicted, and thrown out again by a job that cannot unpack them; PRNG sequences of <=10 ops '
+                     'after a fixed prelude in half the cases, 15 contents, 4 capacities; non-trivial = an assignment had to '
+                     'wait, a job failed or an upload was refused; skipped (noted) when the tree has no tc leg'),
             Leg('client', lambda rng, tier: gen_client(rng, 20000 if tier == 'thorough' else 1500, 25),
                 monitor=monitor_client, shrink=shrink_client, neighbours=neighbours_client, stats=stats_client,
                 nontrivial=lambda case, out: any(o and o[0] in (b'too_large', b'rejected', b'not_in_cache', b'panic') for o in out),
